@@ -22,7 +22,10 @@ EXPLANATION = (
     "R16.3 every path from Link to loader.Load(name) passes a membership/difference test against a container that also "
     "records the name. R16.4 every insertion into the linker's function/global tables is preceded by a not-in test that "
     "rejects. R16.5 for every Metadata key the writer's value is a sequence of the objects the reader iterates and registers "
-    "by GetName(). R16.6 module files are written and read with the same protocol."
+    "by GetName(). R16.6 module files are written and read with the same protocol. R16.3 also: the linker merges every "
+    "module it loads, enters every entry of a module's tables or fails, calls no state-changing method of an IR object, and "
+    "the runner looks the entry point up in the linked program. R16.8 the module interface (Metadata) is written while "
+    "lowering only and nothing is taken out of a module's tables afterwards."
 )
 NOT_DECIDED = "behavioural equality of the linked and the monolithic program; a module that is both added directly and imported by name (modules do not know their own name)"
 ASSUMPTIONS = ["a module is identified by the name it is imported under"]
